@@ -16,6 +16,9 @@ type C19Series struct {
 	X []float64 `json:"x"`
 	// EmptyKind, for an empty series: 0 = nil, 1 = empty non-nil slice, 2 = empty slice of a longer array
 	EmptyKind int `json:"empty_kind,omitempty"`
+	// Prior, when present, is another series whose statistics are asked for first (results discarded): every statistic is
+	// a function of the series it is asked about, not of the series seen earlier in the process
+	Prior []float64 `json:"prior,omitempty"`
 }
 
 // call runs one accessor and turns a panic into an error naming the accessor.
@@ -62,6 +65,17 @@ func refQuantile(sorted []float64, p float64) float64 {
 }
 
 func CheckC19Series(c C19Series, rec *Rec) error {
+	if len(c.Prior) > 0 {
+		p := experiment.Floats(append([]float64(nil), c.Prior...))
+		for _, f := range []func() float64{p.Min, p.Max, p.Sum, p.Mean, p.Variance, p.StdDev, p.Median, p.Q25, p.Q75} {
+			_, _ = call("prior", f)
+		}
+		if len(c.Prior) > len(c.X) {
+			rec.Class("a longer series was summarised before")
+		} else {
+			rec.Class("another series was summarised before")
+		}
+	}
 	x := experiment.Floats(append([]float64(nil), c.X...))
 	n := len(x)
 	if n == 0 {
@@ -188,6 +202,9 @@ func genC19Series(maxLen int) *rapid.Generator[C19Series] {
 		c := C19Series{X: gen.Draw(t, "series")}
 		if len(c.X) == 0 {
 			c.EmptyKind = rapid.IntRange(0, 2).Draw(t, "empty kind")
+		}
+		if rapid.IntRange(0, 2).Draw(t, "prior series") == 0 {
+			c.Prior = gen.Draw(t, "prior")
 		}
 		return c
 	})
